@@ -374,20 +374,20 @@ fn eval_history(_ctx: &Ctx, h: &History) -> Verdict {
 }
 
 pub fn check(ctx: &Ctx) -> Check {
-    let max_len = ctx.tier.pick(4, 5);
+    let max_len = ctx.tier.pick(5, 6);
     let parts: Vec<Box<dyn Part>> = vec![
         Box::new(EnumPart {
             name: "shapes",
-            rule: "every shape with 1..5 axes and lengths 1..4 (thorough 1..5), distinct integer fill; all indices, all (axis, position) views, all out-of-range requests; non-trivial = >=2 axes with unequal lengths, or a one-axis array; distinct by shape",
+            rule: "every shape with 1..5 axes and lengths 1..5 (thorough 1..6), distinct integer fill; all indices, all (axis, position) views, all out-of-range requests; non-trivial = >=2 axes with unequal lengths, or a one-axis array; distinct by shape",
             exhaustive: true,
             cases: Box::new(move |_| all_shapes(5, 1, max_len).into_iter().map(|shape| ShapeCase { shape }).collect()),
             eval: Box::new(eval_shape),
         }),
         Box::new(RandomPart {
             name: "histories",
-            rule: "random call histories (next/len/size_hint/clone) on view::Iter, AxisIter, IndicesIter, FrequenciesIter over random shapes (1..5 axes, lengths 1..5), interpreted against the expected item list; non-trivial = >=2 calls of next() after exhaustion; distinct by (shape, iterator, history)",
-            cases: ctx.tier.pick(20_000, 400_000),
-            strategy: Box::new(|| history_strategy(5).boxed()),
+            rule: "random call histories (next/len/size_hint/clone) on view::Iter, AxisIter, IndicesIter, FrequenciesIter over random shapes (1..5 axes, lengths 1..6), interpreted against the expected item list; non-trivial = >=2 calls of next() after exhaustion; distinct by (shape, iterator, history)",
+            cases: ctx.tier.pick(100_000, 2_000_000),
+            strategy: Box::new(|| history_strategy(6).boxed()),
             eval: Box::new(eval_history),
         }),
     ];
